@@ -6,7 +6,7 @@
 \*    ConvReflRed    a term is convertible with itself and with each of its reducts
 \* G: pairs (a, b, verdict) for the real unify (both argument orders): reflexive, reduct, and a term against the members of a
 \*    small pool of terms of the same type.
-EXTENDS GramBuild, GramTyping, Json
+EXTENDS GramBuild, GramTyping, GramPool, Json
 CONSTANTS RunFuel, TyFuel
 T == Built
 Ground(ty) == LET w == Whnf(ty, <<>>, TyFuel) IN w.ok /\ w.t.k \in {"int", "bool"}
@@ -14,15 +14,6 @@ Acc(t) == LET i == Infer(t, <<>>, TyFuel) IN i.r = "ok" /\ DefOrderOK(t)
 WhnfRunAgree == (Done /\ ~HasHole(T) /\ Acc(T)) =>
    LET i == Infer(T, <<>>, TyFuel)  e == Run(T, RunFuel)  w == Whnf(T, <<>>, 20 * RunFuel) IN
    (Ground(i.ty) /\ e.r = "end" /\ IsValue(e.t) /\ w.ok) => Same(w.t, e.t)
-Pool == { TType, TInt, TBool, TTrue, TFalse, Lit(OfSmall(0)), Lit(OfSmall(1)), Bin("sum", Lit(OfSmall(0)), Lit(OfSmall(1))), Bin("lt", Lit(OfSmall(0)), Lit(OfSmall(1))),
-          IfT(TTrue, TInt, TBool), Binder("lam", "?", FALSE, TInt, Var(0)), Binder("lam", "?", FALSE, TBool, Var(0)), Binder("pi", "?", FALSE, TInt, TInt),
-          App(Binder("lam", "?", FALSE, TInt, Var(0)), Lit(OfSmall(1))),
-          \* groups of different lengths with a shared prefix and same-shaped bodies
-          LetT(<<[n |-> "?", ann |-> TInt, def |-> Lit(OfSmall(1))]>>, Var(0)),
-          LetT(<<[n |-> "?", ann |-> TInt, def |-> Lit(OfSmall(1))], [n |-> "?", ann |-> TInt, def |-> Lit(OfSmall(0))]>>, Var(0)),
-          LetT(<<[n |-> "?", ann |-> TInt, def |-> Lit(OfSmall(0))], [n |-> "?", ann |-> TInt, def |-> Lit(OfSmall(1))]>>, Var(0)),
-          LetT(<<[n |-> "?", ann |-> TType, def |-> TInt]>>, Var(0)),
-          LetT(<<[n |-> "?", ann |-> TType, def |-> TInt], [n |-> "?", ann |-> TType, def |-> TBool]>>, Var(0)) }
 SameType(a, b) == LET ia == Infer(a, <<>>, TyFuel) ib == Infer(b, <<>>, TyFuel) IN ia.r = "ok" /\ ib.r = "ok" /\ Conv(ia.ty, ib.ty, <<>>, TyFuel).r = "yes"
 Partners(t) == { u \in Pool : SameType(t, u) }
 NfEq(a, b) == LET na == Nf(a, <<>>, TyFuel) nb == Nf(b, <<>>, TyFuel) IN IF na.ok /\ nb.ok THEN (IF Same(na.t, nb.t) THEN "yes" ELSE "no") ELSE "fuel"
